@@ -142,16 +142,16 @@ func (c *Ctx) N(quick, thorough int) int {
 
 // K is the per-case context.
 type K struct {
-	c       *Ctx
-	Stream  string
-	Index   int
-	Rng     *Rng
-	inputs  []kv
-	obs     []kv
-	sample  bool
-	failed  map[string]bool
-	ntKey   string
-	nt      bool
+	c      *Ctx
+	Stream string
+	Index  int
+	Rng    *Rng
+	inputs []kv
+	obs    []kv
+	sample bool
+	failed map[string]bool
+	ntKey  string
+	nt     bool
 }
 
 type kv struct {
